@@ -33,6 +33,7 @@ struct Shared {
     env_desc: J,
     deep: Arc<CommitNode>,          // a very deep chain, dropped by whichever thread lets go last
     cjets: Vec<Arc<RedeemNode>>,    // hashing programs over C jets that work on buffers, each with its own data
+    twins: Vec<Arc<RedeemNode>>,    // one program with two witnesses: the first fails inside the left branch of a case, the second succeeds through the right one
 }
 
 fn make_shared(rng: &mut Rng) -> Shared {
@@ -113,20 +114,38 @@ fn make_shared(rng: &mut Rng) -> Shared {
         });
         cjets.push(p);
     }
-    Shared { progs, commits, encodings, dags, bad_dags, types, values, policies, texts, env_desc, deep, cjets }
+    // comp (pair witness unit) (case (unit ; false ; verify) unit): the case node has one identity whatever the witness says
+    let twins: Vec<Arc<RedeemNode>> = [0u8, 1].iter().map(|bit| types::Context::with_context(|ctx| {
+        use simplicity::node::{CoreConstructible, JetConstructible, WitnessConstructible};
+        let w = CN::witness(&ctx, Some(Value::u1(*bit)));
+        let sel = CN::pair(&w, &CN::unit(&ctx)).unwrap();
+        let no = CN::comp(&CN::unit(&ctx), &CN::const_word(&ctx, simplicity::Word::u1(0))).unwrap();
+        let l = CN::comp(&no, &CN::jet(&ctx, &elements_jet("verify"))).unwrap();
+        let cs = CN::case(&l, &CN::unit(&ctx)).unwrap();
+        CN::comp(&sel, &cs).unwrap().finalize_unpruned().expect("twin program")
+    })).collect();
+    Shared { progs, commits, encodings, dags, bad_dags, types, values, policies, texts, env_desc, deep, cjets, twins }
 }
 
-const KINDS: &[&str] = &["decode", "infer", "infer_err", "roots", "exec", "prune", "satisfy", "value", "clone_drop", "human", "types", "cjets"];
+const KINDS: &[&str] = &["decode", "infer", "infer_err", "roots", "exec", "prune", "satisfy", "value", "clone_drop", "human", "types", "cjets", "prune_pair"];
 
 fn count(sh: &Shared, kind: &str) -> usize {
     match kind {
         "decode" | "roots" | "exec" | "prune" | "clone_drop" | "infer" => sh.progs.len(),
         "infer_err" => sh.bad_dags.len(),
+        "prune_pair" => 1,
         "satisfy" => sh.policies.len(),
         "value" => sh.values.len(),
         "human" => sh.texts.len(),
         "cjets" | "storm" => sh.cjets.len(),
         _ => sh.types.len(),
+    }
+}
+
+fn prune_str(p: &RedeemNode, env: &crate::env::Env) -> String {
+    match p.prune(env) {
+        Ok(p) => { let (a, b) = p.to_vec_with_witness(); format!("ok {} {} {}", p.cmr(), dig(&crate::c15::hex(&a)), dig(&crate::c15::hex(&b))) }
+        Err(e) => format!("fail {}", e),
     }
 }
 
@@ -185,10 +204,9 @@ fn run_op(sh: &Shared, env: &crate::env::Env, kind: &str, idx: usize) -> (String
                 Ok(mut mac) => match mac.exec(r, env) { Ok(v) => format!("ok {}", v.iter_compact().count()), Err(e) => format!("fail {}", e) },
             }
         }
-        "prune" => match sh.progs[idx].prune(env) {
-            Ok(p) => { let (a, b) = p.to_vec_with_witness(); format!("ok {} {} {}", p.cmr(), dig(&crate::c15::hex(&a)), dig(&crate::c15::hex(&b))) }
-            Err(e) => format!("fail {}", e),
-        },
+        "prune" => prune_str(&sh.progs[idx], env),
+        // a failing prune followed by a succeeding one of the same program with the other witness, on whatever thread this is
+        "prune_pair" => format!("pair {} | {}", prune_str(&sh.twins[0], env), prune_str(&sh.twins[1], env)),
         "satisfy" => crate::c16::one(&sh.policies[idx]).to_string(),
         "value" => {
             let v = &sh.values[idx];
@@ -253,6 +271,13 @@ pub fn record(rounds: usize, threads: usize, ops: usize, path: &str) {
         out.emit(&json!({"ev": "round", "round": round, "threads": threads, "ops": ops}));
         for kind in KINDS {
             for idx in 0..count(&sh, kind) {
+                if *kind == "prune_pair" {
+                    // "run one at a time": each of the two prunes on a thread of its own, with an environment of its own
+                    let one = |k: usize| { let sh = Arc::clone(&sh); std::thread::spawn(move || { let env = crate::c15::build(&sh.env_desc).env; prune_str(&sh.twins[k], &env) }).join().unwrap_or_else(|_| "panic".into()) };
+                    let d = dig(&format!("pair {} | {}", one(0), one(1)));
+                    out.emit(&json!({"ev": "expect", "key": format!("{}:{}", kind, idx), "digest": d, "ids": []}));
+                    continue;
+                }
                 let (d, ids) = run_op(&sh, &env, kind, idx);
                 out.emit(&json!({"ev": "expect", "key": format!("{}:{}", kind, idx), "digest": d, "ids": ids}));
             }
